@@ -67,6 +67,17 @@ BigNumTexts ==
    <<49,48,48,48,48,48,48,48,48,48,48,48,48,48,48,48,48,48,48,48,48,48,48,48,48,48>>, <<48,46,48,48,48,48,48,48,48,48,48,48,48,48,48,48,48,48,48,48,48,48,48,48,48,48,49>>,
    <<49,101,57,57,57,57,57,57,57,57,57,57,57,57,57>>, <<48,101,57,57,57,57,57,57,57,57,57,57,57,57,57>>, <<49,101,45,57,57,57,57,57,57,57,57,57,57,57,57>>}
 
+\* \u escapes with one byte that is not a hexadecimal digit in each of the four positions, plain and braced
+NotHex == {43, 45, 32, 47, 58, 64, 71, 96, 103, 120}
+BadEsc(c, k, br) == LET u == [i \in 1..4 |-> IF i = k THEN c ELSE <<48, 48, 52, 49>>[i]] IN EscForm(u, br)
+BadEscTexts == {Q \o BadEsc(c, k, br) \o Q : c \in NotHex, k \in 1..4, br \in BOOLEAN}
+               \cup {Q \o <<92, 117, 68, 56, 51, 68>> \o BadEsc(c, k, FALSE) \o Q : c \in {43, 103}, k \in 1..4}
+\* ill-formed UTF-8 inside strings and keys, next to escapes and to plain characters
+BadUnits == {<<255>>, <<195>>, <<128>>, <<192, 128>>, <<237, 160, 128>>, <<240, 159, 152>>, <<244, 144, 128, 128>>}
+Around == {<<>>, <<97>>, <<92, 110>>, <<92, 117, 48, 48, 52, 49>>, <<195, 169>>, <<10>>}
+BadUtf8Texts == {Q \o pre \o u \o post \o Q : pre \in Around, u \in BadUnits, post \in Around}
+                \cup {<<123>> \o Q \o pre \o u \o post \o Q \o <<58, 49, 125>> : pre \in {<<>>, <<92, 110>>}, u \in BadUnits, post \in {<<>>, <<97>>}}
+                \cup {<<91, 49, 44>> \o Q \o pre \o u \o post \o Q \o <<93>> : pre \in {<<>>, <<92, 110>>}, u \in BadUnits, post \in {<<>>, <<97>>}}
 Raw(b) == [op |-> "parse_value", raw |-> <<b>>, a |-> [z |-> 0]]
 
 Init == stage = "start" /\ txt = <<>> /\ scr = [op |-> "none"]
@@ -83,7 +94,7 @@ EmitCorrupt ==
 EmitSoup == \E ts \in Seqs(SoupToks, MaxLen) : Out(Join(ts))
 EmitNumLex == \E cs \in Seqs(NumChars, MaxLen) : Out(cs) \/ Out(<<91>> \o cs \o <<93>>)
 EmitStrLex == \E cs \in Seqs(StrChars, MaxLen) : Out(Q \o cs \o Q)
-EmitFixed == \E b \in SurrogateTexts \cup BigNumTexts \cup {<<91>> \o x \o <<44, 49, 93>> : x \in BigNumTexts} : Out(b)
+EmitFixed == \E b \in SurrogateTexts \cup BigNumTexts \cup {<<91>> \o x \o <<44, 49, 93>> : x \in BigNumTexts} \cup BadEscTexts \cup BadUtf8Texts : Out(b)
 
 Next ==
   /\ stage = "start"
@@ -104,4 +115,5 @@ GenInv ==
     IN /\ (s # Err => r = s)
        /\ (r # Err => IsDoc(IF r.k = "num" /\ r.r = "lex" THEN Null ELSE r) \/ TRUE)
        /\ Parse(<<32>> \o txt \o <<10>>, FALSE) = r
+       /\ (txt \in BadEscTexts \cup BadUtf8Texts => r = Err)
 =============================================================================
